@@ -384,7 +384,7 @@ int x509_crl_entry_ext_print(FILE *fp, int fmt, int ind, const char *label, cons
 			error_print();
 			return -1;
 		}
-		format_print(fp, fmt, ind, "invalidityDate: %s", ctime(&invalidity_date));
+		format_time(fp, fmt, ind, "invalidityDate", invalidity_date);
 
 	} else if (oid == OID_ce_certificate_issuer) {
 		const uint8_t *gns;
@@ -627,7 +627,7 @@ int x509_revoked_cert_print(FILE *fp, int fmt, int ind, const char *label, const
 	if (asn1_integer_from_der(&p, &len, &d, &dlen) != 1) goto err;
 	format_bytes(fp, fmt, ind, "userCertificate", p, len);
 	if (x509_time_from_der(&tv, &d, &dlen) != 1) goto err;
-	format_print(fp, fmt, ind, "revocationDate: %s", ctime(&tv));
+	format_time(fp, fmt, ind, "revocationDate", tv);
 	if ((ret = asn1_sequence_from_der(&p, &len, &d, &dlen)) < 0) goto err;
 	if (ret) x509_crl_entry_exts_print(fp, fmt, ind, "crlEntryExtensions", p, len);
 	if (asn1_length_is_zero(dlen) != 1) goto err;
@@ -1338,9 +1338,9 @@ int x509_tbs_crl_print(FILE *fp, int fmt, int ind, const char *label, const uint
 	if (x509_name_from_der(&p, &len, &d, &dlen) != 1) goto err;
 	x509_name_print(fp, fmt, ind, "issuer", p, len);
 	if (x509_time_from_der(&tv, &d, &dlen) != 1) goto err;
-	format_print(fp, fmt, ind, "thisUpdate: %s", ctime(&tv));
+	format_time(fp, fmt, ind, "thisUpdate", tv);
 	if ((ret = x509_time_from_der(&tv, &d, &dlen)) < 0) goto err;
-	if (ret) format_print(fp, fmt, ind, "nextUpdate: %s", ctime(&tv));
+	if (ret) format_time(fp, fmt, ind, "nextUpdate", tv);
 	if ((ret = asn1_sequence_from_der(&p, &len, &d, &dlen)) < 0) goto err;
 	if (ret) x509_revoked_certs_print(fp, fmt, ind, "revokedCertificates", p, len);
 	if ((ret = x509_explicit_exts_from_der(0, &p, &len, &d, &dlen)) < 0) goto err;
